@@ -28,9 +28,6 @@ SCOPING (decisions taken so that the check is free of false alarms; DESIGN secti
  * a generated record whose own text does not parse back to an equal record is C05's business
    (seen: vlib.gen.rdata can emit an NSEC/CSYNC bitmap with bit 0 set without the text-lossy
    flag); such a record is left out and counted (dropped:text-codec:<type>).
- * a freshly constructed dns.btreezone.Zone cannot open a non-replacement writer (ValueError
-   "original BTree is not immutable" -- incidental finding, reported, C20's business): its first
-   transaction here is writer(True), which is what from_text() uses.
  * $GENERATE: only what Reader._generate_line documents/implements is used: one "$" (with or
    without a ${offset[,width[,base]]} modifier) per side, a single-token right-hand side (a
    quoted rhs is not accepted by the reader, so MX-like patterns are left out), nibble mode
@@ -60,6 +57,12 @@ flag each (flip the flag after /repo is fixed; the counter class shows how often
                             with white space = "same owner as before"   (excluded:name-just-positive)
  * EXCLUDE_REL_ORIGIN       "$ORIGIN sub" (relative argument) makes the current origin a relative
                             name; every following record is silently dropped  (excluded:relative-$ORIGIN)
+ * EXCLUDE_RELATIVE_EQ      two different records of one RRset that both hold a relative name and
+                            become equal when the relative names are read against the root (e.g.
+                            "RP admin txt" and "RP admin. txt" in a relativized zone) compare equal
+                            (Rdata.__eq__ digests relative names with origin "."), so a relativized
+                            zone silently keeps only one of them: the second record of such a pair
+                            is not generated  (excluded:relative-eq)
 """
 
 import io
@@ -86,7 +89,7 @@ LEVEL_TEXT = (
     "TTLs, CNAME nodes, RRSIG families, delegations/glue, case variants) x three zone classes x "
     "relativize x the lossless style product, and over equivalent zone-file spellings produced by an "
     "independent writer (owner/TTL/class inheritance, $ORIGIN, $TTL, $GENERATE, parentheses, generic "
-    "syntax, out-of-zone records) incl. dns.zonefile.read_rrsets. No violation outside the five "
+    "syntax, out-of-zone records) incl. dns.zonefile.read_rrsets. No violation outside the six "
     "defect classes listed in the module SCOPING comment; not a proof."
 )
 RULE = (
@@ -102,7 +105,7 @@ ASSUMPTIONS = [
     "vlib/ref/zonefile_writer.py encodes RFC 1035 5.1 / RFC 2308 4 / BIND $GENERATE rules independently",
     "record text itself is C05's business: records flagged text-lossy are not used; here the rdata text "
     "is only carried",
-    "five genuine defect classes are excluded by construction behind EXCLUDE_* flags (see SCOPING); "
+    "six genuine defect classes are excluded by construction behind EXCLUDE_* flags (see SCOPING); "
     "their counts appear as excluded:* classes",
 ]
 
@@ -111,6 +114,7 @@ EXCLUDE_GENERIC_READ = True
 EXCLUDE_TOTEXT_STYLE = True
 EXCLUDE_NAME_JUST_POS = True
 EXCLUDE_REL_ORIGIN = True
+EXCLUDE_RELATIVE_EQ = True
 
 _FACTORIES = ("plain", "versioned", "btree")
 _NEUTRAL = {47, 50, 25}  # NSEC, NSEC3, KEY (dns.node documents these as compatible with CNAME)
@@ -118,6 +122,7 @@ _CNAME = 5
 _RRSIG = 46
 _SIG = 24
 _SOA = 6
+_LDH = b"abcdefghijklmnopqrstuvwxyzABCDEFGHIJKLMNOPQRSTUVWXYZ0123456789-_*"
 _SIMPLE_NAME_RD = {"NS": 0, "CNAME": 0, "PTR": 0, "DNAME": 0, "MX": 2, "AFSDB": 2, "RT": 2, "KX": 2}
 
 
@@ -205,7 +210,7 @@ def _owners(draw, origin, n_min, n_max):
             rel = rel[1:]
         if rel and rel[0].startswith(b"$"):
             tags |= {"hostile", "dollar"}
-        if any(not all(c in b"abcdefghijklmnopqrstuvwxyzABCDEFGHIJKLMNOPQRSTUVWXYZ0123456789-_*" for c in l) for l in rel):
+        if any(any(c not in _LDH for c in l) for l in rel):
             tags.add("hostile")
         out.append((rel, tags))
     return out
@@ -301,11 +306,11 @@ def _node_sets(draw, kind, rdclass, ctx, ttls, no_normalizing, soa_min=None):
 
 
 @st.composite
-def _zone_content(draw, no_normalizing, external_only, neg=None):
+def _zone_content(draw, no_normalizing, external_only):
     """origin, class, ttl pool, nodes (owner absolute labels, kind, tags, sets)"""
     origin = draw(_origin())
     if external_only and origin == [b""]:
-        origin = [b"example", b""]
+        origin = [b"zone", b"test", b""]  # under the root every name is in the zone
     rdclass = draw(st.sampled_from([1] * 12 + [3, 4, 0xFE00]))
     ttls = draw(st.lists(st.sampled_from(_TTLS), min_size=1, max_size=4, unique=True))
     ctx = {"pool": [n for n in _EXTERNAL_POOL if origin == [b""] or not _is_sub(n, origin)] or None}
@@ -467,6 +472,22 @@ def _text_codec_ok(rd, rdclass):
     return back == rd and back.to_wire() == rd.to_wire()
 
 
+class _RelEq:
+    """EXCLUDE_RELATIVE_EQ: remembers the records of each RRset in both forms and tells whether a
+    new record would collide, in its relativized form only, with one already there"""
+
+    def __init__(self):
+        self.groups = {}
+
+    def collides(self, owner_key, rda, rdr):
+        covers = rda.covers() if rda.rdtype in (_RRSIG, _SIG) else 0
+        g = self.groups.setdefault((owner_key, int(rda.rdtype), int(covers)), [])
+        hit = EXCLUDE_RELATIVE_EQ and any(rdr == r and not (rda == a) for a, r in g)
+        if not hit:
+            g.append((rda, rdr))
+        return hit
+
+
 def _cname_ok(content):
     """no owner holds CNAME (or RRSIG(CNAME)) together with a non-neutral type"""
     for k, node in content.items():
@@ -504,6 +525,7 @@ def run_roundtrip(case):
     embedded = False
     tags = set()
     owners = set()
+    releq = _RelEq()
     for node in case["nodes"]:
         owner = dns.name.Name(G.unhexl(node["owner"]))
         for s in node["sets"]:
@@ -521,6 +543,9 @@ def run_roundtrip(case):
                     continue
                 if not _text_codec_ok(rda, rdclass):
                     classes.append("dropped:text-codec:" + s["t"])
+                    continue
+                if releq.collides(W.name_key(owner.labels), rda, rdr):
+                    classes.append("excluded:relative-eq")
                     continue
                 rd = rdr if zrel else rda
                 if _has_relative_name(rdr):
@@ -549,10 +574,7 @@ def run_roundtrip(case):
             covers = rd.covers() if rd.rdtype in (_RRSIG, _SIG) else dns.rdatatype.NONE
             z.find_rdataset(spelled(owner, i), rd.rdtype, covers, create=True).add(rd, ttl)
     else:
-        # a freshly constructed dns.btreezone.Zone cannot open a non-replacement writer
-        # (ValueError "original BTree is not immutable": incidental finding, reported, not C09's
-        # business), so its first transaction is a replacement one, as from_text() does
-        with z.writer(case["factory"] == "btree") as txn:
+        with z.writer() as txn:
             for i, (owner, ttl, rd) in enumerate(adds):
                 txn.add(spelled(owner, i), ttl, rd)
     E0 = ZU.extract(z, origin)
@@ -589,13 +611,8 @@ def run_roundtrip(case):
     for t in ("hostile", "dollar", "wildcard", "ent", "casevar", "below", "kind:cname", "kind:deleg", "kind:glue"):
         if t in tags:
             classes.append("owner:" + t)
-    ncov = {}
-    for kk, node in E0.items():
-        c = len([1 for (t, _) in node if t == _RRSIG])
-        if c >= 2:
-            classes.append("rrsig-multi-covers")
-            break
-    del ncov
+    if any(len([1 for (t, _) in node if t == _RRSIG]) >= 2 for node in E0.values()):
+        classes.append("rrsig-multi-covers")
 
     try:
         text = z.to_styled_text(style)
@@ -932,6 +949,7 @@ def run_respell(case):
     neg = case["neg"]
     classes = []
     items = []
+    releq = _RelEq()
     origins_in_file = [origin_l] + [G.unhexl(it["to"]) for it in case["items"] if it["k"] == "origin"]
     for it in case["items"]:
         k = it["k"]
@@ -948,6 +966,9 @@ def run_respell(case):
                 continue
             if not _text_codec_ok(rd, rdclass):
                 classes.append("dropped:text-codec:" + it["t"])
+                continue
+            if releq.collides(W.name_key(G.unhexl(it["owner"])), rd, rdr):
+                classes.append("excluded:relative-eq")
                 continue
             generic_ok = True
             if EXCLUDE_GENERIC_READ:
@@ -978,6 +999,11 @@ def run_respell(case):
         else:
             items.append(dict(it))
     model = {"origin": origin_l, "rdclass": rdclass, "items": items}
+    rels = [it["owner"][: len(it["owner"]) - len(origin_l)] for it in items if it["k"] == "rr"]
+    if any(r and r[0].startswith(b"$") for r in rels):
+        classes.append("owner:dollar")
+    if any(any(c not in _LDH for c in l) for r in rels for l in r):
+        classes.append("owner:hostile")
     E = ZW.expected(model)
     if not E:
         return {"nontrivial": False, "classes": classes + ["empty"]}
@@ -1121,6 +1147,7 @@ def parts(tier):
     rs_req.update({"rw:ttl-soa-minimum": 5 if q else 80, "rw:generate-under-mid-origin": 3 if q else 50,
                    "rw:rdata-relative-under-mid-origin": 3 if q else 50, "rw:out-of-zone-inherited": 5 if q else 80,
                    "cname-conflict-refused": 30 if q else 500, "origin-check-refused": 30 if q else 500,
+                   "owner:hostile": 100 if q else 1500, "owner:dollar": 30 if q else 400,
                    "out-of-zone-ignored": 50 if q else 1000, "read_rrsets": 200 if q else 4000, "origin-from-file": 50 if q else 1000})
     for f in _FACTORIES:
         rs_req["factory:" + f] = 300 if q else 5000
